@@ -91,19 +91,23 @@ func modelEvalWith(r *Run, family string, bound int, replay func(*evalVector) (b
 	seen := map[[20]byte]bool{}
 	tags := map[string]int{}
 	var wg sync.WaitGroup
+	// ShardSubset > 0: the universe is cut into nsh*ShardSubset parts and the nsh
+	// processes explore one part each (1/ShardSubset of the whole), rotating with the seed
+	total := nsh
+	if ShardSubset > 0 {
+		total = nsh * ShardSubset
+		r.Cov["model_universe_fraction_explored"] = fmt.Sprintf("1/%d (rotating with the seed)", ShardSubset)
+	}
 	for k := 0; k < nsh; k++ {
-		if ShardSubset > 0 && k >= ShardSubset {
-			break
-		}
-		sh := (k + int(r.Seed)) % nsh
+		sh := k
 		if ShardSubset > 0 {
-			r.Cov["model_shards_explored"] = fmt.Sprintf("%d of %d (rotating with the seed)", ShardSubset, nsh)
+			sh = k + nsh*int(r.Seed%int64(ShardSubset))
 		}
 		wg.Add(1)
 		go func(sh int) {
 			defer wg.Done()
 			dir := filepath.Join(r.Dir, fmt.Sprintf("mc-eval-%s-%d", family, sh))
-			cfg := fmt.Sprintf("SPECIFICATION Spec\nCONSTANTS\n CharOrder <- AsciiOrder\n LowerSet <- AsciiLower\n MaxFuel = %d\n Family = \"%s\"\n Bound = %d\n Shard = %d\n NShards = %d\nINVARIANT TypeOK\nCHECK_DEADLOCK FALSE\n", ModelFuel, family, bound, sh, nsh)
+			cfg := fmt.Sprintf("SPECIFICATION Spec\nCONSTANTS\n CharOrder <- AsciiOrder\n LowerSet <- AsciiLower\n MaxFuel = %d\n Family = \"%s\"\n Bound = %d\n Shard = %d\n NShards = %d\nINVARIANT TypeOK\nCHECK_DEADLOCK FALSE\n", ModelFuel, family, bound, sh, total)
 			res, err := tlc.RunModelCfg(dir, "MC_Eval", cfg, 4, "4g", 90*time.Minute, func(js []byte) {
 				h := sha1.Sum(js)
 				mu.Lock()
@@ -117,6 +121,13 @@ func modelEvalWith(r *Run, family string, bound int, replay func(*evalVector) (b
 				var v evalVector
 				if err := json.Unmarshal(js, &v); err != nil {
 					Fatal("bad vector from TLC: %v: %.300s", err, js)
+				}
+				if v.Err == "undef" {
+					// outside the modelled domain (e.g. a path string that YAML does not parse to itself): no verdict
+					mu.Lock()
+					tags["undef"]++
+					mu.Unlock()
+					return
 				}
 				agree, obs := replay(&v)
 				mu.Lock()
